@@ -43,8 +43,10 @@ pub enum Cause {
     ShortBody { expected: usize, actual: usize },
     /// buffer continues after the declared length
     Excess { expected: usize, actual: usize },
-    /// declared length is not a multiple of 4 / attribute header or value cut by the end of the body
-    AttrTruncated,
+    /// declared length is not a multiple of 4 / attribute header or value cut by the end of the body.
+    /// `available` is the buffer length when the header of the cut attribute is complete (the
+    /// number of bytes that are there is then unambiguous), None when even the header is cut
+    AttrTruncated { available: Option<usize> },
     AfterIntegrity(u16),
     AfterFingerprint(u16),
     BadFingerprintLen,
@@ -206,8 +208,10 @@ pub fn parse(buf: &[u8]) -> RefParse {
     // as true of it as the truncation is
     let mut ordered = attrs.clone();
     if !tiled {
-        causes.push(Cause::AttrTruncated);
         let off = attrs.last().map(|a| a.padded_end()).unwrap_or(20);
+        causes.push(Cause::AttrTruncated {
+            available: if off + 4 <= end && end == buf.len() { Some(buf.len()) } else { None },
+        });
         if off + 4 <= end {
             let ty = u16::from_be_bytes([buf[off], buf[off + 1]]);
             let len = u16::from_be_bytes([buf[off + 2], buf[off + 3]]) as usize;
